@@ -17,8 +17,9 @@
 // (int64, float64, string, bool, []byte), minus the three exclusions of the
 // property text; "returns a string or ErrStringLimit, never panics" for
 // everything, including a dedicated phase with a small tengo.MaxStringLen.
-// A systematic sub-grid is also driven through the builtin format() and the
-// stdlib fmt.sprintf() by real scripts and must equal tengo.Format's result.
+// Every grid and reorder case and the short arb formats are also driven
+// through the builtin format() and the stdlib fmt.sprintf() by real scripts
+// and must equal tengo.Format's result.
 //
 // Which (verb, argument) pairs Go actually applies in a format, with which
 // flags/width/precision, is not re-implemented here: it is read off Go's own
@@ -31,7 +32,7 @@ import (
 	"math"
 	"os"
 	"runtime"
-	"runtime/pprof"
+	"runtime/debug"
 	"sort"
 	"strconv"
 	"strings"
@@ -56,10 +57,8 @@ type argv struct {
 	Go     interface{}  // corresponding Go value; nil: not one of the five mapped types
 	Tr     interface{}  // tracing twin of Go
 	I      int64
-	Script bool // member of the script-level sub-alphabet
+	Script bool // member of the script-level sub-alphabet (only used when scriptAll is off)
 }
-
-func (a *argv) mapped() bool { return a.Go != nil }
 
 func mkInt(v int64) *argv {
 	return &argv{Enc: "int:" + strconv.FormatInt(v, 10), Typ: "int", I: v,
@@ -119,7 +118,7 @@ func fin(a *argv) *argv {
 	return a
 }
 
-// decodeArg is the inverse of argv.Enc (used by replay and by the tracer).
+// decodeArg is the inverse of argv.Enc (used by replay).
 func decodeArg(enc string) (*argv, error) {
 	i := strings.IndexByte(enc, ':')
 	if i < 0 {
@@ -166,6 +165,40 @@ func must(enc string) *argv {
 	return a
 }
 
+// alist is one argument list with the per-API views precomputed.
+type alist struct {
+	args   []*argv
+	objs   []tengo.Object
+	gos    []interface{}
+	trs    []interface{}
+	mapped bool // every argument is of one of the five mapped types
+	script bool
+}
+
+func newAlist(args []*argv) *alist {
+	l := &alist{args: args, mapped: true, script: true}
+	for _, a := range args {
+		l.objs = append(l.objs, a.obj)
+		l.gos = append(l.gos, a.Go)
+		l.trs = append(l.trs, a.Tr)
+		if a.Go == nil {
+			l.mapped = false
+		}
+		if !a.Script {
+			l.script = false
+		}
+	}
+	return l
+}
+
+func (l *alist) encs() []string {
+	out := make([]string, len(l.args))
+	for i, a := range l.args {
+		out[i] = a.Enc
+	}
+	return out
+}
+
 var (
 	intVals = []int64{0, 1, -1, 7, 255, 65, 1114111, math.MinInt64, math.MaxInt64}
 	fltVals = []float64{0, math.Copysign(0, -1), 1, 1.5, -2.5, 1e21, 5e-324, math.MaxFloat64,
@@ -178,6 +211,7 @@ var (
 	alphaVS []*argv // operand position that is also a '*' position
 	alphaX  []*argv // filler for positions that are neither
 	alphaM  []*argv // reorder templates: one or two values per type
+	argOne  *argv   // int 1 (perturbation value)
 )
 
 func initAlphabets() {
@@ -209,8 +243,8 @@ func initAlphabets() {
 		}
 		return
 	}
-	// ints: zero, positive, negative, beyond fmt's 1e6 cap; then the values
-	// Go rejects (BADWIDTH/BADPREC) because they are not ints.
+	// ints: zero, positive, negative, beyond fmt's 1e6 cap; then values Go
+	// rejects for '*' (BADWIDTH/BADPREC) because they are not ints.
 	alphaS = pick("int:0", "int:3", "int:-4", "int:2000000", "float:2.5", `string:"2"`, "bool:true")
 	alphaVS = append(alphaVS, alphaV...)
 	for _, a := range alphaS {
@@ -230,6 +264,7 @@ func initAlphabets() {
 		`string:"2"`, "bool:true", `bytes:"ab"`) {
 		a.Script = true
 	}
+	argOne = pick("int:1")[0]
 }
 
 // ---------------------------------------------------------------------------
@@ -243,7 +278,8 @@ func (v tInt) Format(s fmt.State, verb rune) { rec(s, verb, "int:"+strconv.Forma
 func (v tAny) Format(s fmt.State, verb rune) { rec(s, verb, v.enc) }
 
 func rec(s fmt.State, verb rune, enc string) {
-	b := []byte{1}
+	b := make([]byte, 0, 48)
+	b = append(b, 1)
 	b = utf8.AppendRune(b, verb)
 	b = append(b, 0x1f)
 	for _, c := range "#0+- " {
@@ -284,12 +320,8 @@ func (a app) directive() string {
 	return s + string(a.verb)
 }
 
-func trace(format string, args []*argv) []app {
-	tr := make([]interface{}, len(args))
-	for i, a := range args {
-		tr[i] = a.Tr
-	}
-	out := fmt.Sprintf(format, tr...)
+func trace(format string, l *alist) []app {
+	out := fmt.Sprintf(format, l.trs...)
 	var apps []app
 	for {
 		i := strings.IndexByte(out, 1)
@@ -313,7 +345,7 @@ func trace(format string, args []*argv) []app {
 		if f[3] != "" {
 			a.prec, _ = strconv.Atoi(f[3])
 		}
-		for _, x := range args {
+		for _, x := range l.args {
 			if x.Enc == f[4] {
 				a.arg = x
 				break
@@ -358,20 +390,8 @@ var coarse = map[string]bool{
 	"verb=T/arg=int": true, "verb=T/arg=float": true, "verb=T/arg=bytes": true,
 }
 
-var fineSigs = os.Getenv("C17_FINE") != ""
-
 // flagClass names the first feature present, in a fixed priority order.
 func flagClass(flags string, wid, prec int) string {
-	if fineSigs {
-		s := "f=" + strings.ReplaceAll(flags, " ", "_")
-		if wid >= 0 {
-			s += "+w"
-		}
-		if prec >= 0 {
-			s += "+p"
-		}
-		return s
-	}
 	switch {
 	case prec >= 0:
 		return "prec"
@@ -406,7 +426,7 @@ func appSig(a app) string {
 		return "elemverb/arg=bytes"
 	}
 	base := "verb=" + verbName(a.verb) + "/arg=" + a.arg.Typ
-	if coarse[base] && !fineSigs {
+	if coarse[base] {
 		return base
 	}
 	return base + "/" + flagClass(a.flags, a.wid, a.prec)
@@ -440,7 +460,17 @@ type Case struct {
 	Op     int      `json:"operand_pos,omitempty"`    // grid: 1-based position of the operand (0: none)
 }
 
-type fail struct{ sig, what string }
+// fail is one oracle failure; the message is rendered only when it is kept.
+type fail struct {
+	sig  string
+	tmpl string // Sprintf template over (a, b), both quoted and shortened
+	a, b string
+}
+
+func (f fail) what(c *Case, l *alist) string {
+	return fmt.Sprintf(f.tmpl, short(f.a), short(f.b)) +
+		fmt.Sprintf(": format=%s args=%v", short(c.Format), l.encs())
+}
 
 type result struct {
 	class      string // outcome class (vacuity guard)
@@ -448,17 +478,12 @@ type result struct {
 	compared   bool // compared with fmt.Sprintf inside the equality claim
 	nontrivial bool // Go's output has no %! marker
 	calls      int64
-	scripts    int64
 	got, want  string
 	errText    string
 	scriptObs  string
 }
 
-func tengoFormat(format string, args []*argv) (s string, err error, pan string) {
-	objs := make([]tengo.Object, len(args))
-	for i, a := range args {
-		objs[i] = a.obj
-	}
+func tengoFormat(format string, objs []tengo.Object) (s string, err error, pan string) {
 	defer func() {
 		if r := recover(); r != nil {
 			pan = fmt.Sprint(r)
@@ -469,23 +494,6 @@ func tengoFormat(format string, args []*argv) (s string, err error, pan string) 
 	}()
 	s, err = tengo.Format(format, objs...)
 	return
-}
-
-func goFormat(format string, args []*argv) string {
-	ga := make([]interface{}, len(args))
-	for i, a := range args {
-		ga[i] = a.Go
-	}
-	return fmt.Sprintf(format, ga...)
-}
-
-func allMapped(args []*argv) bool {
-	for _, a := range args {
-		if !a.mapped() {
-			return false
-		}
-	}
-	return true
 }
 
 const extraMarker = "%!(EXTRA "
@@ -506,14 +514,6 @@ func short(s string) string {
 	return q
 }
 
-func encs(args []*argv) []string {
-	out := make([]string, len(args))
-	for i, a := range args {
-		out[i] = a.Enc
-	}
-	return out
-}
-
 // isoMismatch runs one application on its own. A verb character that the
 // directive syntax reads as a flag, digit, '*', '.', '[' or '%' cannot be
 // spelled on its own (it is a verb only behind a width, '*' or index); Go
@@ -523,14 +523,17 @@ func isoMismatch(a app, calls *int64) bool {
 		return true
 	}
 	d := a.directive()
-	one := []*argv{a.arg}
 	*calls++
-	g, err, pan := tengoFormat(d, one)
-	return pan != "" || err != nil || g != goFormat(d, one)
+	g, err, pan := tengoFormat(d, []tengo.Object{a.arg.obj})
+	return pan != "" || err != nil || g != fmt.Sprintf(d, a.arg.Go)
+}
+
+func markers(s string) int {
+	return strings.Count(s, "%!(BADWIDTH)") + strings.Count(s, "%!(BADPREC)")
 }
 
 // attribute names the input class responsible for got != want.
-func attribute(c *Case, args []*argv, apps []app, got, want string, calls *int64) string {
+func attribute(c *Case, l *alist, apps []app, got, want string, calls *int64) string {
 	// (1) one application that disagrees on its own
 	for _, a := range apps {
 		if excludedApp(a) == "" && isoMismatch(a, calls) {
@@ -541,20 +544,17 @@ func attribute(c *Case, args []*argv, apps []app, got, want string, calls *int64
 	// found by perturbation: replacing it by int 1 removes a BADWIDTH/BADPREC
 	// marker from Go's output (Go consumed it for a '*' and rejected it) but
 	// none from Tengo's (Tengo had accepted it).
-	markers := func(s string) int {
-		return strings.Count(s, "%!(BADWIDTH)") + strings.Count(s, "%!(BADPREC)")
-	}
 	if nBad := markers(want); nBad > 0 && markers(got) != nBad {
-		one := must("int:1")
-		for i, a := range args {
+		for i, a := range l.args {
 			if a.Typ == "int" {
 				continue
 			}
-			pert := append([]*argv{}, args...)
-			pert[i] = one
+			objs := append([]tengo.Object{}, l.objs...)
+			gos := append([]interface{}{}, l.gos...)
+			objs[i], gos[i] = argOne.obj, argOne.Go
 			*calls++
-			g2, _, _ := tengoFormat(c.Format, pert)
-			if markers(goFormat(c.Format, pert)) < nBad && markers(g2) == markers(got) {
+			g2, _, _ := tengoFormat(c.Format, objs)
+			if markers(fmt.Sprintf(c.Format, gos...)) < nBad && markers(g2) == markers(got) {
 				return "star/arg=" + a.Typ
 			}
 		}
@@ -562,15 +562,15 @@ func attribute(c *Case, args []*argv, apps []app, got, want string, calls *int64
 	// (3) %T is formatted by Go before the Formatter hook: not in the trace.
 	if strings.ContainsRune(c.Format, 'T') {
 		if c.Part == "grid" {
-			if c.Op > 0 && c.Op <= len(args) && !strings.Contains(want, "%!T(") {
+			if c.Op > 0 && c.Op <= len(l.args) && !strings.Contains(want, "%!T(") {
 				flags, wid, prec := directiveShape(c.Format)
-				t := app{verb: 'T', flags: flags, wid: wid, prec: prec, arg: args[c.Op-1]}
+				t := app{verb: 'T', flags: flags, wid: wid, prec: prec, arg: l.args[c.Op-1]}
 				if isoMismatch(t, calls) {
 					return appSig(t)
 				}
 			}
 		} else {
-			for _, a := range args {
+			for _, a := range l.args {
 				t := app{verb: 'T', wid: -1, prec: -1, arg: a}
 				if isoMismatch(t, calls) {
 					return appSig(t)
@@ -590,7 +590,7 @@ func attribute(c *Case, args []*argv, apps []app, got, want string, calls *int64
 	if v == "" && len(apps) > 0 {
 		v = verbName(apps[0].verb)
 	}
-	return "struct/go=" + marker + "/verb=" + v + "/nargs=" + strconv.Itoa(len(args))
+	return "struct/go=" + marker + "/verb=" + v + "/nargs=" + strconv.Itoa(len(l.args))
 }
 
 // directiveShape recovers the literal flags/width/precision of a grid
@@ -633,39 +633,37 @@ var scriptSrc = [4]string{
 
 // scriptFails compares what format()/fmt.sprintf() returned inside a script
 // (obs[0], obs[1]; ok[i] false: not a string) with tengo.Format's result.
-func scriptFails(c *Case, args []*argv, got string, obs [2]string, ok [2]bool) (fails []fail) {
+func scriptFails(nargs int, got string, obs [2]string, ok [2]bool) (fails []fail) {
 	noargs := ""
-	if len(args) == 0 {
+	if nargs == 0 {
 		noargs = "/noargs"
 	}
 	for i, name := range [2]string{"format", "sprintf"} {
 		if !ok[i] || obs[i] != got {
 			fails = append(fails, fail{"api=" + name + "/differs-from-Format" + noargs,
-				fmt.Sprintf("%s(...) in a script gives %s, tengo.Format gives %s: format=%s args=%v",
-					name, short(obs[i]), short(got), short(c.Format), encs(args))})
+				name + "(...) in a script gives %s, tengo.Format gives %s", obs[i], got})
 		}
 	}
 	return
 }
 
 // runScript drives one case through the builtin format() and fmt.sprintf().
-func runScript(c *Case, args []*argv, res *result) {
+func runScript(c *Case, l *alist, res *result) {
 	in := map[string]tengo.Object{"f": &tengo.String{Value: c.Format}}
-	for i, a := range args {
+	for i, a := range l.args {
 		in["a"+strconv.Itoa(i)] = a.Mk()
 	}
-	o := tg.Run(scriptSrc[len(args)], tg.Opts{Inputs: in, Modules: stdlib.GetModuleMap("fmt")})
-	res.scripts++
+	o := tg.Run(scriptSrc[len(l.args)], tg.Opts{Inputs: in, Modules: stdlib.GetModuleMap("fmt")})
 	res.calls += 2
 	if o.Class != "ok" {
 		res.scriptObs = o.Class + ": " + tg.FirstLine(o.ErrText)
 		noargs := ""
-		if len(args) == 0 {
+		if len(l.args) == 0 {
 			noargs = "/noargs"
 		}
 		res.fails = append(res.fails, fail{"api=script/" + o.Class + noargs,
-			fmt.Sprintf("script calling format()/fmt.sprintf() ended with %s (%s) but tengo.Format returned %s: format=%s args=%v",
-				o.Class, tg.FirstLine(o.ErrText), short(res.got), short(c.Format), encs(args))})
+			"script calling format()/fmt.sprintf() ended with %s but tengo.Format returned %s",
+			o.Class + ": " + tg.FirstLine(o.ErrText), res.got})
 		return
 	}
 	var obs [2]string
@@ -677,7 +675,7 @@ func runScript(c *Case, args []*argv, res *result) {
 		}
 	}
 	res.scriptObs = "format=" + short(obs[0]) + " sprintf=" + short(obs[1])
-	res.fails = append(res.fails, scriptFails(c, args, res.got, obs, ok)...)
+	res.fails = append(res.fails, scriptFails(len(l.args), res.got, obs, ok)...)
 }
 
 // One script evaluates a whole batch of cases (one VM start per batch instead
@@ -705,10 +703,10 @@ for c in cases {
 `
 
 type bitem struct {
-	key  uint64
-	c    Case
-	args []*argv
-	got  string
+	key uint64
+	c   Case
+	l   *alist
+	got string
 }
 
 // runBatch drives the collected cases through format()/fmt.sprintf(). If the
@@ -717,39 +715,40 @@ func runBatch(w *acc, items []bitem) {
 	if len(items) == 0 {
 		return
 	}
-	part := items[0].c.Part
-	cases := &tengo.Array{Value: make([]tengo.Object, 0, len(items))}
-	for _, it := range items {
-		row := make([]tengo.Object, 0, 1+len(it.args))
+	pc := w.part(items[0].c.Part)
+	cases := w.rows[:0]
+	for i := range items {
+		it := &items[i]
+		row := make([]tengo.Object, 0, 1+len(it.l.args))
 		row = append(row, &tengo.String{Value: it.c.Format})
-		for _, a := range it.args {
+		for _, a := range it.l.args {
 			row = append(row, a.Mk())
 		}
-		cases.Value = append(cases.Value, &tengo.Array{Value: row})
+		cases = append(cases, &tengo.Array{Value: row})
 	}
-	o := tg.Run(batchSrc, tg.Opts{Inputs: map[string]tengo.Object{"cases": cases}, Modules: stdlib.GetModuleMap("fmt")})
-	w.counts["script-runs"]++
-	w.counts["evaluations"]++
+	w.rows = cases
+	o := tg.Run(batchSrc, tg.Opts{Inputs: map[string]tengo.Object{"cases": &tengo.Array{Value: cases}},
+		Modules: stdlib.GetModuleMap("fmt")})
+	w.scriptRuns++
 	o1, _ := o.Globals["o1"].(*tengo.Array)
 	o2, _ := o.Globals["o2"].(*tengo.Array)
 	if o.Class != "ok" || o1 == nil || o2 == nil || len(o1.Value) != len(items) || len(o2.Value) != len(items) {
-		w.counts["script-batches-rerun-case-by-case"]++
+		w.batchReruns++
 		for i := range items {
 			it := &items[i]
 			res := result{got: it.got}
-			runScript(&it.c, it.args, &res)
-			w.counts["script-runs"]++
-			w.counts["evaluations"]++
-			w.counts["format-calls"] += res.calls
-			w.counts[part+"/script-cases"]++
+			runScript(&it.c, it.l, &res)
+			w.scriptRuns++
+			w.calls += res.calls
+			pc.scriptCases++
 			for _, f := range res.fails {
-				w.addFail(it.key, &it.c, it.args, f)
+				w.addFail(it.key, &it.c, it.l, f)
 			}
 		}
 		return
 	}
-	w.counts["format-calls"] += 2 * int64(len(items))
-	w.counts[part+"/script-cases"] += int64(len(items))
+	w.calls += 2 * int64(len(items))
+	pc.scriptCases += int64(len(items))
 	for i := range items {
 		it := &items[i]
 		var obs [2]string
@@ -761,30 +760,27 @@ func runBatch(w *acc, items []bitem) {
 			}
 		}
 		if ok[0] && ok[1] && obs[0] == it.got && obs[1] == it.got {
-			w.outcomes[part+"/script:equals-Format"]++
+			pc.outcomes["script:equals-Format"]++
 			continue
 		}
-		w.outcomes[part+"/script:differs-from-Format"]++
-		for _, f := range scriptFails(&it.c, it.args, it.got, obs, ok) {
-			w.addFail(it.key, &it.c, it.args, f)
+		pc.outcomes["script:differs-from-Format"]++
+		for _, f := range scriptFails(len(it.l.args), it.got, obs, ok) {
+			w.addFail(it.key, &it.c, it.l, f)
 		}
 	}
 }
 
 // runCase executes one case. MaxStringLen must already have the value the case
 // asks for (the enumeration sets it per phase, replay per case).
-func runCase(c *Case, args []*argv, inlineScript bool) (res result) {
-	got, err, pan := tengoFormat(c.Format, args)
+func runCase(c *Case, l *alist, inlineScript bool) (res result) {
+	got, err, pan := tengoFormat(c.Format, l.objs)
 	res.calls++
 	res.got = got
-	what := func(s string) string {
-		return fmt.Sprintf("%s: format=%s args=%v", s, short(c.Format), encs(args))
-	}
 	if pan != "" {
 		res.class = "panic"
 		res.errText = "panic: " + pan
-		res.fails = append(res.fails, fail{"panic/part=" + c.Part + "/" + firstVerbSig(c, args),
-			what("tengo.Format panicked: " + tg.FirstLine(pan))})
+		res.fails = append(res.fails, fail{"panic/part=" + c.Part + "/" + firstVerbSig(c, l),
+			"tengo.Format panicked: %s%.0s", tg.FirstLine(pan), ""})
 		return
 	}
 	if err != nil {
@@ -796,7 +792,7 @@ func runCase(c *Case, args []*argv, inlineScript bool) (res result) {
 			res.class = "limit-error"
 		case err != nil:
 			res.class = "other-error"
-			res.fails = append(res.fails, fail{"limit/other-error", what("error is not ErrStringLimit: " + err.Error())})
+			res.fails = append(res.fails, fail{"limit/other-error", "error is not ErrStringLimit: %s%.0s", err.Error(), ""})
 		case len(got) > c.MaxLen:
 			res.class = "overlong"
 			// attribution: the first (verb letter of the format, argument)
@@ -807,16 +803,16 @@ func runCase(c *Case, args []*argv, inlineScript bool) (res result) {
 				if !(v >= 'a' && v <= 'z' || v >= 'A' && v <= 'Z') {
 					continue
 				}
-				for _, a := range args {
+				for _, a := range l.args {
 					res.calls++
-					if g, e, _ := tengoFormat("%"+string(v), []*argv{a}); e == nil && len(g) > c.MaxLen {
+					if g, e, _ := tengoFormat("%"+string(v), []tengo.Object{a.obj}); e == nil && len(g) > c.MaxLen {
 						sig = "limit/overlong/verb=" + verbName(v)
 						break find
 					}
 				}
 			}
 			res.fails = append(res.fails, fail{sig,
-				what(fmt.Sprintf("MaxStringLen=%d but a %d-byte string %s was returned without error", c.MaxLen, len(got), short(got)))})
+				"MaxStringLen=" + strconv.Itoa(c.MaxLen) + " but the " + strconv.Itoa(len(got)) + "-byte string %s was returned without error%.0s", got, ""})
 		default:
 			res.class = "within-limit"
 		}
@@ -825,13 +821,13 @@ func runCase(c *Case, args []*argv, inlineScript bool) (res result) {
 	if err != nil {
 		res.class = "error"
 		res.fails = append(res.fails, fail{"error-at-default-limit/part=" + c.Part,
-			what("tengo.Format returned an error with the default MaxStringLen: " + err.Error())})
+			"tengo.Format returned an error with the default MaxStringLen: %s%.0s", err.Error(), ""})
 		return
 	}
-	if !allMapped(args) {
+	if !l.mapped {
 		res.class = "no-panic(unmapped-args)"
 	} else {
-		want := goFormat(c.Format, args)
+		want := fmt.Sprintf(c.Format, l.gos...)
 		res.want = want
 		res.nontrivial = !strings.Contains(want, "%!")
 		if got == want {
@@ -841,7 +837,7 @@ func runCase(c *Case, args []*argv, inlineScript bool) (res result) {
 				res.class = "equal(go-error-marker)"
 			}
 		} else {
-			apps := trace(c.Format, args)
+			apps := trace(c.Format, l)
 			excl := ""
 			for _, a := range apps {
 				if e := excludedApp(a); e != "" {
@@ -859,28 +855,28 @@ func runCase(c *Case, args []*argv, inlineScript bool) (res result) {
 				res.class = "equal-up-to-EXTRA-rendering"
 			default:
 				res.compared = true
-				sig := attribute(c, args, apps, got, want, &res.calls)
+				sig := attribute(c, l, apps, got, want, &res.calls)
 				res.class = "differs:" + sig
-				res.fails = append(res.fails, fail{sig, what(fmt.Sprintf("tengo.Format gives %s, fmt.Sprintf gives %s", short(got), short(want)))})
+				res.fails = append(res.fails, fail{sig, "tengo.Format gives %s, fmt.Sprintf gives %s", got, want})
 			}
 		}
 	}
 	if c.Script && inlineScript {
-		runScript(c, args, &res)
+		runScript(c, l, &res)
 	}
 	return
 }
 
-func firstVerbSig(c *Case, args []*argv) string {
+func firstVerbSig(c *Case, l *alist) string {
 	if c.Verb != "" {
 		t := "none"
-		if c.Op > 0 && c.Op <= len(args) {
-			t = args[c.Op-1].Typ
+		if c.Op > 0 && c.Op <= len(l.args) {
+			t = l.args[c.Op-1].Typ
 		}
 		return "verb=" + c.Verb + "/arg=" + t
 	}
-	if allMapped(args) {
-		if apps := trace(c.Format, args); len(apps) > 0 {
+	if l.mapped {
+		if apps := trace(c.Format, l); len(apps) > 0 {
 			return "verb=" + verbName(apps[0].verb) + "/arg=" + apps[0].arg.Typ
 		}
 	}
@@ -902,15 +898,33 @@ type vgroup struct {
 	ex    []keyed // up to 5 smallest keys
 }
 
+type partCounts struct {
+	cases, compared, nontrivial, differs, scriptCases int64
+	outcomes                                          map[string]int64
+}
+
 type acc struct {
-	counts   map[string]int64
-	outcomes map[string]int64
-	viol     map[string]*vgroup
-	samples  []keyed
+	parts       map[string]*partCounts
+	calls       int64
+	scriptRuns  int64
+	batchReruns int64
+	viol        map[string]*vgroup
+	samples     []keyed
+	batch       []bitem        // reused per unit
+	rows        []tengo.Object // reused per batch
 }
 
 func newAcc() *acc {
-	return &acc{counts: map[string]int64{}, outcomes: map[string]int64{}, viol: map[string]*vgroup{}}
+	return &acc{parts: map[string]*partCounts{}, viol: map[string]*vgroup{}}
+}
+
+func (w *acc) part(p string) *partCounts {
+	pc := w.parts[p]
+	if pc == nil {
+		pc = &partCounts{outcomes: map[string]int64{}}
+		w.parts[p] = pc
+	}
+	return pc
 }
 
 func keepSmallest(ex []keyed, k keyed, n int) []keyed {
@@ -925,7 +939,7 @@ func keepSmallest(ex []keyed, k keyed, n int) []keyed {
 	return ex
 }
 
-func (w *acc) addFail(key uint64, c *Case, args []*argv, f fail) {
+func (w *acc) addFail(key uint64, c *Case, l *alist, f fail) {
 	g := w.viol[f.sig]
 	if g == nil {
 		g = &vgroup{}
@@ -934,38 +948,36 @@ func (w *acc) addFail(key uint64, c *Case, args []*argv, f fail) {
 	g.count++
 	if len(g.ex) < 5 || key < g.ex[len(g.ex)-1].key {
 		cc := *c
-		cc.Args = encs(args)
-		g.ex = keepSmallest(g.ex, keyed{key: key, c: cc, what: f.what}, 5)
+		cc.Args = l.encs()
+		g.ex = keepSmallest(g.ex, keyed{key: key, c: cc, what: f.what(c, l)}, 5)
 	}
 }
 
-func (w *acc) fold(key uint64, c *Case, args []*argv, res *result, sample bool) {
-	p := c.Part
-	w.counts[p+"/cases"]++
-	w.counts["format-calls"] += res.calls
-	w.counts["evaluations"]++
+func (w *acc) fold(key uint64, c *Case, l *alist, res *result, sample bool) {
+	pc := w.part(c.Part)
+	pc.cases++
+	w.calls += res.calls
 	if res.compared {
-		w.counts[p+"/compared-with-fmt.Sprintf"]++
+		pc.compared++
 	}
 	if res.nontrivial {
-		w.counts[p+"/nontrivial"]++
+		pc.nontrivial++
 	}
-	cls := res.class
-	if strings.HasPrefix(cls, "differs:") {
-		w.counts[p+"/differs"]++
+	if len(res.fails) > 0 && strings.HasPrefix(res.class, "differs:") {
+		pc.differs++
 	}
-	w.outcomes[p+"/"+cls]++
+	pc.outcomes[res.class]++
 	for _, f := range res.fails {
-		w.addFail(key, c, args, f)
+		w.addFail(key, c, l, f)
 	}
 	if sample {
 		cc := *c
-		cc.Args = encs(args)
+		cc.Args = l.encs()
 		obs := "tengo=" + short(res.got)
 		if res.errText != "" {
 			obs += " err=" + res.errText
 		}
-		if res.want != "" || res.compared {
+		if l.mapped && c.Part != "limit" {
 			obs += " go=" + short(res.want)
 		}
 		w.samples = keepSmallest(w.samples, keyed{key: key, c: cc, obs: obs + " -> " + res.class}, 4)
@@ -1059,10 +1071,31 @@ func (g grid) at(d int) (format string, verb byte, stars, opPos int) {
 	return "%" + flagString(m) + g.widths[wi] + g.precs[p] + g.idxs[ix] + string(verb), verb, stars, opPos
 }
 
+// product returns every list of length 0..3 whose position j ranges over alpha(j).
+func product(alpha func(j int) []*argv) []*alist {
+	out := []*alist{newAlist(nil)}
+	for n := 1; n <= 3; n++ {
+		cur := [][]*argv{{}}
+		for j := 0; j < n; j++ {
+			var nxt [][]*argv
+			for _, pre := range cur {
+				for _, a := range alpha(j) {
+					nxt = append(nxt, append(append([]*argv{}, pre...), a))
+				}
+			}
+			cur = nxt
+		}
+		for _, l := range cur {
+			out = append(out, newAlist(l))
+		}
+	}
+	return out
+}
+
 // listsFor builds every argument list of length 0..3 for a directive with the
 // given number of '*' and operand position, from the per-position alphabets.
-func listsFor(stars, opPos int) [][]*argv {
-	alpha := func(j int) []*argv {
+func listsFor(stars, opPos int) []*alist {
+	return product(func(j int) []*argv {
 		switch {
 		case j == opPos && j < stars:
 			return alphaVS
@@ -1072,32 +1105,7 @@ func listsFor(stars, opPos int) [][]*argv {
 			return alphaS
 		}
 		return alphaX
-	}
-	out := [][]*argv{{}}
-	for n := 1; n <= 3; n++ {
-		cur := [][]*argv{{}}
-		for j := 0; j < n; j++ {
-			var nxt [][]*argv
-			for _, pre := range cur {
-				for _, a := range alpha(j) {
-					l := append(append([]*argv{}, pre...), a)
-					nxt = append(nxt, l)
-				}
-			}
-			cur = nxt
-		}
-		out = append(out, cur...)
-	}
-	return out
-}
-
-func allScript(l []*argv) bool {
-	for _, a := range l {
-		if !a.Script {
-			return false
-		}
-	}
-	return true
+	})
 }
 
 // ---------------------------------------------------------------------------
@@ -1140,24 +1148,16 @@ func arbAt(i int, buf []byte) string {
 	return string(buf)
 }
 
-func arbIndex(s string) int {
-	if len(s) > 12 {
-		return -1
-	}
-	off, p, v := 0, 1, 0
+func inArbAlphabet(s string) bool {
 	for k := 0; k < len(s); k++ {
-		j := strings.IndexByte(arbAlphabet, s[k])
-		if j < 0 {
-			return -1
+		if strings.IndexByte(arbAlphabet, s[k]) < 0 {
+			return false
 		}
-		off += p
-		p *= len(arbAlphabet)
-		v = v*len(arbAlphabet) + j
 	}
-	return off + v
+	return true
 }
 
-var arbLists [][]*argv
+var arbLists []*alist
 
 func initArbLists() {
 	for _, l := range [][]string{
@@ -1173,31 +1173,26 @@ func initArbLists() {
 		for _, e := range l {
 			as = append(as, must(e))
 		}
-		arbLists = append(arbLists, as)
+		arbLists = append(arbLists, newAlist(as))
 	}
-}
-
-func sameList(a, b []*argv) bool {
-	if len(a) != len(b) {
-		return false
-	}
-	for i := range a {
-		if a[i].Enc != b[i].Enc {
-			return false
-		}
-	}
-	return true
 }
 
 // inArb reports whether (format,args) is also a case of part 2.
-func inArb(format string, args []*argv, maxLen int) bool {
-	if len(format) > maxLen || arbIndex(format) < 0 {
+func inArb(format string, l *alist, maxLen int) bool {
+	if len(format) > maxLen || !inArbAlphabet(format) {
 		return false
 	}
-	for _, l := range arbLists {
-		if sameList(l, args) {
-			return true
+next:
+	for _, al := range arbLists {
+		if len(al.args) != len(l.args) {
+			continue
 		}
+		for i := range al.args {
+			if al.args[i].Enc != l.args[i].Enc {
+				continue next
+			}
+		}
+		return true
 	}
 	return false
 }
@@ -1230,22 +1225,24 @@ func replay(path string) {
 		if bad {
 			continue
 		}
+		l := newAlist(args)
 		old := tengo.MaxStringLen
 		if c.MaxLen > 0 {
 			tengo.MaxStringLen = c.MaxLen
 		}
-		res := runCase(&c, args, true)
+		res := runCase(&c, l, true)
 		tengo.MaxStringLen = old
 		fmt.Printf("case part=%s format=%s args=%v", c.Part, strconv.QuoteToASCII(c.Format), c.Args)
 		if c.MaxLen > 0 {
 			fmt.Printf(" MaxStringLen=%d", c.MaxLen)
 		}
 		fmt.Println()
-		if c.Part == "limit" {
+		switch {
+		case c.Part == "limit":
 			fmt.Printf("  expected: a string of at most %d bytes, or ErrStringLimit\n", c.MaxLen)
-		} else if allMapped(args) {
-			fmt.Printf("  expected (fmt.Sprintf): %s\n", strconv.QuoteToASCII(res.want))
-		} else {
+		case l.mapped:
+			fmt.Printf("  expected (fmt.Sprintf):  %s\n", strconv.QuoteToASCII(res.want))
+		default:
 			fmt.Printf("  expected: any string or ErrStringLimit, no panic\n")
 		}
 		fmt.Printf("  observed (tengo.Format): %s", strconv.QuoteToASCII(res.got))
@@ -1253,12 +1250,12 @@ func replay(path string) {
 			fmt.Printf("  error: %s", res.errText)
 		}
 		fmt.Println()
-		if c.Script {
-			fmt.Printf("  observed (script): %s\n", res.scriptObs)
+		if c.Script && res.scriptObs != "" {
+			fmt.Printf("  observed (script):       %s\n", res.scriptObs)
 		}
 		fmt.Printf("  outcome: %s\n", res.class)
 		for _, f := range res.fails {
-			fmt.Printf("  FAIL %s: %s\n", f.sig, f.what)
+			fmt.Printf("  FAIL %s: %s\n", f.sig, f.what(&c, l))
 		}
 	}
 }
@@ -1272,10 +1269,12 @@ func main() {
 	}
 	r := report.New("C17")
 	thorough := r.Thorough()
-	if pf := os.Getenv("C17_PROF"); pf != "" {
-		f, _ := os.Create(pf)
-		_ = pprof.StartCPUProfile(f)
-		defer pprof.StopCPUProfile()
+	// The live heap is a few MB while every case allocates short-lived strings:
+	// with the default GOGC the 16 workers spend most of their time in GC cycles.
+	debug.SetGCPercent(400)
+	if v := os.Getenv("C17_GOGC"); v != "" {
+		n, _ := strconv.Atoi(v)
+		debug.SetGCPercent(n)
 	}
 
 	var all []*acc
@@ -1291,13 +1290,7 @@ func main() {
 		g.masks = append(g.masks, m)
 	}
 	if !thorough {
-		// quick: every flag subset of size <= 2, widths {none,5,*}, precisions {none,".",".3",".*"}
-		g.masks = nil
-		for m := 0; m < 32; m++ {
-			if bitsSet(m) <= 2 {
-				g.masks = append(g.masks, m)
-			}
-		}
+		// quick: all 32 flag subsets, widths {none,5,*}, precisions {none,".",".3",".*"}
 		g.widths = []string{"", "5", "*"}
 		g.precs = []string{"", ".", ".3", ".*"}
 	}
@@ -1307,7 +1300,7 @@ func main() {
 	}
 	const scriptAll = true // every grid case also goes through format() and fmt.sprintf()
 	const scriptArbLen = 4
-	lists := map[[2]int][][]*argv{}
+	lists := map[[2]int][]*alist{}
 	for stars := 0; stars <= 2; stars++ {
 		for _, op := range []int{0, 1, 2, 8} {
 			lists[[2]int{stars, op}] = listsFor(stars, op)
@@ -1321,19 +1314,17 @@ func main() {
 	var overlap, overlapNontrivial int64
 	all = append(all, parallel(g.size(), func(w *acc, d int) {
 		format, verb, stars, opPos := g.at(d)
-		ls := lists[[2]int{stars, opPos}]
-		batch := make([]bitem, 0, len(ls))
-		defer func() { runBatch(w, batch) }()
-		for j, l := range ls {
-			c := Case{Part: "grid", Format: format, Verb: string(verb), Script: scriptAll || allScript(l)}
-			if opPos < len(l) {
+		w.batch = w.batch[:0]
+		for j, l := range lists[[2]int{stars, opPos}] {
+			c := Case{Part: "grid", Format: format, Verb: string(verb), Script: scriptAll || l.script}
+			if opPos < len(l.args) {
 				c.Op = opPos + 1
 			}
 			res := runCase(&c, l, false)
 			key := uint64(d)<<20 | uint64(j)
 			w.fold(key, &c, l, &res, (d*7+j)%50021 == 0)
 			if c.Script && res.errText == "" {
-				batch = append(batch, bitem{key, c, l, res.got})
+				w.batch = append(w.batch, bitem{key, c, l, res.got})
 			}
 			if inArb(format, l, arbMax) {
 				atomic.AddInt64(&overlap, 1)
@@ -1342,27 +1333,12 @@ func main() {
 				}
 			}
 		}
+		runBatch(w, w.batch)
 	})...)
 
 	phase("grid done")
 	// ---- part 1b: reorder templates
-	var mLists [][]*argv
-	{
-		save := alphaX
-		_ = save
-		cur := [][]*argv{{}}
-		mLists = append(mLists, cur...)
-		for n := 1; n <= 3; n++ {
-			var nxt [][]*argv
-			for _, pre := range cur {
-				for _, a := range alphaM {
-					nxt = append(nxt, append(append([]*argv{}, pre...), a))
-				}
-			}
-			cur = nxt
-			mLists = append(mLists, cur...)
-		}
-	}
+	mLists := product(func(int) []*argv { return alphaM })
 	type rdir struct{ format, verb string }
 	var rdirs []rdir
 	seenR := map[string]bool{}
@@ -1382,15 +1358,14 @@ func main() {
 	}
 	const base1b = uint64(1) << 40
 	all = append(all, parallel(len(rdirs), func(w *acc, d int) {
-		batch := make([]bitem, 0, len(mLists))
-		defer func() { runBatch(w, batch) }()
+		w.batch = w.batch[:0]
 		for j, l := range mLists {
 			c := Case{Part: "reorder", Format: rdirs[d].format, Verb: rdirs[d].verb, Script: true}
 			res := runCase(&c, l, false)
 			key := base1b + uint64(d)<<20 | uint64(j)
 			w.fold(key, &c, l, &res, (d*5+j)%9973 == 0)
 			if res.errText == "" {
-				batch = append(batch, bitem{key, c, l, res.got})
+				w.batch = append(w.batch, bitem{key, c, l, res.got})
 			}
 			if inArb(c.Format, l, arbMax) {
 				atomic.AddInt64(&overlap, 1)
@@ -1399,22 +1374,18 @@ func main() {
 				}
 			}
 		}
+		runBatch(w, w.batch)
 	})...)
 
 	phase("reorder done")
-	if os.Getenv("C17_PROF") != "" {
-		pprof.StopCPUProfile()
-		os.Exit(0)
-	}
 	// ---- part 2: arbitrary strings
 	nArb := arbCount(arbMax)
-	scriptArb := arbCount(scriptArbLen) // script-level sub-grid: every string of length <= scriptArbLen
-	const chunk = 2048
+	scriptArb := arbCount(scriptArbLen) // script level: every string of length <= scriptArbLen
+	const chunk = 1024
 	const base2 = uint64(1) << 60
 	all = append(all, parallel((nArb+chunk-1)/chunk, func(w *acc, u int) {
 		buf := make([]byte, 0, 16)
-		var batch []bitem
-		defer func() { runBatch(w, batch) }()
+		w.batch = w.batch[:0]
 		for i := u * chunk; i < (u+1)*chunk && i < nArb; i++ {
 			format := arbAt(i, buf)
 			for j, l := range arbLists {
@@ -1423,10 +1394,11 @@ func main() {
 				key := base2 + uint64(i)<<4 | uint64(j)
 				w.fold(key, &c, l, &res, (i*7+j)%1000003 == 0)
 				if c.Script && res.errText == "" {
-					batch = append(batch, bitem{key, c, l, res.got})
+					w.batch = append(w.batch, bitem{key, c, l, res.got})
 				}
 			}
 		}
+		runBatch(w, w.batch)
 	})...)
 
 	phase("arb done")
@@ -1436,11 +1408,7 @@ func main() {
 	if thorough {
 		limits = []int{3, 8}
 	}
-	limMax := 5
-	nLim := arbCount(limMax)
-	if thorough {
-		nLim = arbCount(arbMax)
-	}
+	nLim := arbCount(arbMax)
 	const base3 = uint64(3) << 60
 	for li, lim := range limits {
 		old := tengo.MaxStringLen
@@ -1462,16 +1430,28 @@ func main() {
 
 	phase("limit done")
 	// ---- merge (sums; examples and samples with the smallest keys)
-	counts := map[string]int64{}
-	outcomes := map[string]int64{}
+	parts := map[string]*partCounts{}
 	viol := map[string]*vgroup{}
 	var samples []keyed
+	var calls, scriptRuns, batchReruns int64
 	for _, a := range all {
-		for k, v := range a.counts {
-			counts[k] += v
-		}
-		for k, v := range a.outcomes {
-			outcomes[k] += v
+		calls += a.calls
+		scriptRuns += a.scriptRuns
+		batchReruns += a.batchReruns
+		for p, pc := range a.parts {
+			m := parts[p]
+			if m == nil {
+				m = &partCounts{outcomes: map[string]int64{}}
+				parts[p] = m
+			}
+			m.cases += pc.cases
+			m.compared += pc.compared
+			m.nontrivial += pc.nontrivial
+			m.differs += pc.differs
+			m.scriptCases += pc.scriptCases
+			for k, v := range pc.outcomes {
+				m.outcomes[k] += v
+			}
 		}
 		for sig, gr := range a.viol {
 			m := viol[sig]
@@ -1487,121 +1467,104 @@ func main() {
 		samples = append(samples, a.samples...)
 	}
 	sort.Slice(samples, func(i, j int) bool { return samples[i].key < samples[j].key })
-	// spread the 12 evidence samples over the parts
-	perPart := map[string]int{}
+	perPart := map[string]int{} // spread the 12 evidence samples over the parts
 	for _, s := range samples {
 		if perPart[s.c.Part] < 3 {
 			perPart[s.c.Part]++
 			r.Sample(map[string]interface{}{"case": s.c, "observed": s.obs})
 		}
 	}
-	var names []string
-	for k := range counts {
-		names = append(names, k)
-	}
-	sort.Strings(names)
-	for _, k := range names {
-		r.Count(k, counts[k])
-	}
-	names = names[:0]
-	for k := range outcomes {
-		names = append(names, k)
-	}
-	sort.Strings(names)
-	for _, k := range names {
-		for n := outcomes[k]; n > 0; n-- {
-			r.Outcome(k)
+	var evaluations int64
+	for _, p := range []string{"grid", "reorder", "arb", "limit"} {
+		pc := parts[p]
+		if pc == nil {
+			continue
+		}
+		evaluations += pc.cases
+		r.Count(p+"/cases", pc.cases)
+		if p != "limit" {
+			r.Count(p+"/compared-with-fmt.Sprintf", pc.compared)
+			r.Count(p+"/differs", pc.differs)
+			r.Count(p+"/nontrivial", pc.nontrivial)
+			r.Count(p+"/cases-also-through-format()-and-fmt.sprintf()", pc.scriptCases)
+		}
+		var names []string
+		for k := range pc.outcomes {
+			names = append(names, k)
+		}
+		sort.Strings(names)
+		for _, k := range names {
+			for n := pc.outcomes[k]; n > 0; n-- {
+				r.Outcome(p + "/" + k)
+			}
 		}
 	}
-	names = names[:0]
+	evaluations += scriptRuns
+	r.Count("format-calls", calls)
+	r.Count("script-runs", scriptRuns)
+	r.Count("script-batches-rerun-case-by-case", batchReruns)
+	r.Count("overlap/grid+reorder-cases-also-in-arb", overlap)
+	var names []string
 	for k := range viol {
 		names = append(names, k)
 	}
 	sort.Strings(names)
 	for _, sig := range names {
 		gr := viol[sig]
-		for i, e := range gr.ex {
-			what := gr.ex[0].what
-			_ = i
-			r.Violation(sig, what, e.c)
+		for _, e := range gr.ex {
+			r.Violation(sig, gr.ex[0].what, e.c)
 		}
 		for n := gr.count - int64(len(gr.ex)); n > 0; n-- {
 			r.Violation(sig, gr.ex[0].what, nil)
 		}
 	}
-
 	phase("merge done")
-	r.Count("overlap/grid+reorder-cases-also-in-arb", overlap)
-	var vEnc, sEnc, xEnc, mEnc []string
-	for _, a := range alphaV {
-		vEnc = append(vEnc, a.Enc)
-	}
-	for _, a := range alphaS {
-		sEnc = append(sEnc, a.Enc)
-	}
-	for _, a := range alphaX {
-		xEnc = append(xEnc, a.Enc)
-	}
-	for _, a := range alphaM {
-		mEnc = append(mEnc, a.Enc)
+
+	enc := func(as []*argv) (out []string) {
+		for _, a := range as {
+			out = append(out, a.Enc)
+		}
+		return
 	}
 	var arbL [][]string
 	for _, l := range arbLists {
-		arbL = append(arbL, encs(l))
-	}
-	var scr []string
-	for _, a := range alphaVS {
-		if a.Script {
-			scr = append(scr, a.Enc)
-		}
+		arbL = append(arbL, l.encs())
 	}
 	var fl []string
 	for _, m := range g.masks {
 		fl = append(fl, "\""+flagString(m)+"\"")
 	}
 	r.Set("alphabets", map[string]interface{}{
-		"grid_flags":              strings.Join(fl, " "),
-		"grid_widths":             g.widths,
-		"grid_precisions":         g.precs,
-		"grid_arg_indexes":        g.idxs,
-		"verbs":                   docVerbs,
-		"grid_directives":         g.size(),
-		"operand_values":          vEnc,
-		"star_values":             sEnc,
-		"filler_values":           xEnc,
-		"reorder_templates":       reorderTemplates,
-		"reorder_values":          mEnc,
-		"arb_alphabet":            arbAlphabet,
-		"arb_max_length":          arbMax,
-		"arb_argument_lists":      arbL,
-		"limit_max_string_len":    limits,
-		"limit_format_max_length": map[bool]int{false: limMax, true: arbMax}[thorough],
-		"script_sub_alphabet":     scr,
-		"script_sub_grid":         "grid cases whose arguments all lie in script_sub_alphabet; every third argument list of each reorder format; arb formats of length <= 3",
+		"grid_flags":           strings.Join(fl, " "),
+		"grid_widths":          g.widths,
+		"grid_precisions":      g.precs,
+		"grid_arg_indexes":     g.idxs,
+		"verbs":                docVerbs,
+		"grid_directives":      g.size(),
+		"operand_values":       enc(alphaV),
+		"star_values":          enc(alphaS),
+		"filler_values":        enc(alphaX),
+		"reorder_templates":    reorderTemplates,
+		"reorder_values":       enc(alphaM),
+		"arb_alphabet":         arbAlphabet,
+		"arb_max_length":       arbMax,
+		"arb_argument_lists":   arbL,
+		"limit_max_string_len": limits,
+		"script_level":         fmt.Sprintf("every grid and reorder case, arb formats of length <= %d", scriptArbLen),
 	})
 	r.Assume("reference = fmt.Sprintf of the host toolchain (" + runtime.Version() + ") on int64/float64/string/bool/[]byte; the set of (verb, argument, flags, width, precision) applications of a format is read off Go's own parser through fmt.Formatter tracing values")
-	r.Assume("docs/formatting.md defines no Tengo-specific rendering for any verb of the five mapped types (it says %v is %t/%d/%g/%s and %T is 'a Go-syntax representation of the type'), so Go's output is the oracle for every verb; no verb uses a documented-Tengo-behaviour oracle")
+	r.Assume("docs/formatting.md defines no Tengo-specific rendering for any verb applied to the five mapped types (it says %v is %t/%d/%g/%s and %T is 'a Go-syntax representation of the type'), so Go's output is the oracle for every verb; no verb uses a documented-Tengo-behaviour oracle")
 	r.Assume("outside the equality claim per the property text (still executed, must not panic): %q of an int that is not a Unicode code point, '#' with %x/%X on a float, and the text after %!(EXTRA (the text before it and the presence of the marker are compared)")
 	r.Assume("the int64(float) conversion Tengo applies to a float used as '*' is the platform's (amd64) for NaN/Inf")
-	r.Assume("limit phase: tengo.MaxStringLen is a process-wide variable; it is changed only between phases while no case is running")
+	r.Assume("limit phase: tengo.MaxStringLen is a process-wide variable; it is changed only between phases while no case is running; a string longer than MaxStringLen returned without error is reported (a string over the limit is not a legal result)")
 
-	states := counts["grid/cases"] + counts["reorder/cases"] + counts["arb/cases"] - overlap
-	nontriv := counts["grid/nontrivial"] + counts["reorder/nontrivial"] + counts["arb/nontrivial"] - overlapNontrivial
-	validated := counts["grid/compared-with-fmt.Sprintf"] + counts["reorder/compared-with-fmt.Sprintf"] + counts["arb/compared-with-fmt.Sprintf"]
+	pg, pr, pa := parts["grid"], parts["reorder"], parts["arb"]
 	r.Finish(report.Coverage{
-		States:      states,
-		Transitions: counts["format-calls"],
-		Validated:   validated,
-		Evaluations: counts["evaluations"],
-		Nontrivial:  nontriv,
-		Rule:        "state = one distinct (format string, argument list): grid = every directive %<flags><width><precision><argindex><verb> x every argument list of length 0..3 from the per-position alphabets; reorder = every template x verb x every list of length 0..3 over reorder_values; arb = every string of length <= arb_max_length over arb_alphabet x arb_argument_lists (cases of grid/reorder that are also arb cases are counted once); the limit phase re-runs arb cases under a small MaxStringLen and adds no states. transition = one tengo.Format call (direct, isolated re-run for attribution, or inside format()/fmt.sprintf() in a script). validated = cases whose tengo.Format result was compared with fmt.Sprintf inside the equality claim. non-trivial = fmt.Sprintf's output contains no %! error marker",
+		States:      pg.cases + pr.cases + pa.cases - overlap,
+		Transitions: calls,
+		Validated:   pg.compared + pr.compared + pa.compared,
+		Evaluations: evaluations,
+		Nontrivial:  pg.nontrivial + pr.nontrivial + pa.nontrivial - overlapNontrivial,
+		Rule:        "state = one distinct (format string, argument list): grid = every directive %<flags><width><precision><argindex><verb> x every argument list of length 0..3 from the per-position alphabets; reorder = every template x verb x every list of length 0..3 over reorder_values; arb = every string of length <= arb_max_length over arb_alphabet x arb_argument_lists (cases of grid/reorder that are also arb cases are counted once); the limit phase re-runs the arb cases under a small MaxStringLen and adds no states. transition = one tengo.Format call (direct, isolated re-run for attribution, or inside format()/fmt.sprintf() in a script). validated = cases whose tengo.Format result was compared with fmt.Sprintf inside the equality claim. evaluations = cases executed (all four parts) + scripts run. non-trivial = fmt.Sprintf's output contains no %! error marker",
 	})
-}
-
-func bitsSet(m int) int {
-	n := 0
-	for ; m != 0; m &= m - 1 {
-		n++
-	}
-	return n
 }
